@@ -30,14 +30,16 @@ from hpstatic.xrnorm import atom_rewrite
 from . import c04, c09
 from .theories import run_config, IFQ
 
-MUTATION_TARGETS = {'holopy/scattering/theory/mie.py': ['raw_cross_sections'], 'holopy/scattering/theory/mie_f/miescatlib.py': ['cross_sections', 'asymmetry_parameter'], 'holopy/scattering/theory/multisphere.py': ['raw_cross_sections', '_calc_cext', '_calc_cscat']}
+MUTATION_TARGETS = {'holopy/scattering/theory/mie.py': ['raw_cross_sections'], 'holopy/scattering/theory/mie_f/miescatlib.py': ['cross_sections', 'asymmetry_parameter'], 'holopy/scattering/theory/multisphere.py': ['raw_cross_sections', '_calc_cext', '_calc_cscat', '_integrate4pi', '_calc_asym', '_calc_cscat_quad'], 'holopy/scattering/theory/mie_f/mie_specfuncs.py': ['Qratio']}
 
 LEVEL = 'other'
 META = dict(
     claimed=True,
     technique='canonical-form identity cabs == cext - cscat with slot/label '
               'tracking; formula conformance of the Mie sums with Bohren & Huffman; '
-              'weight typing of the cross-section entries',
+              'weight typing of the cross-section entries'
+              '; domain / weight check of the solid-angle quadratures (dblquad limits'
+              ' through inlined lambdas, integrand weights by polynomial division)',
     level_text='Static: E1 is a proof (to rounding) that extinction = scattering + '
                'absorption for every sphere / cluster, since absorption is computed '
                'as that difference; E2/E3 decide that the coded sums are the textbook '
